@@ -78,6 +78,13 @@ class C18(Prop):
                     ok, detail = char_class_complement_ok(pat)
                     g.append(Ground(f"C18/sanitiser-class[{rel}:{pat}]", ok, detail, witness=dict(file=rel, pattern=pat, line=x.lineno), native=False))
         g.append(Ground("C18/sanitisers-found", n_subs >= 5, f"{n_subs} re.sub filters"))
+        # a filter must remove EVERY offending character: re.sub(pattern, repl, string) with nothing in the count position
+        for rel in ("vyxal/transpile.py", "vyxal/parse.py", "vyxal/lexer.py", "vyxal/helpers.py"):
+            m, _ = W.module_ast(rel)
+            for x in ast.walk(m):
+                if isinstance(x, ast.Call) and ast.unparse(x.func) in ("re.sub", "re.subn") and x.args and isinstance(x.args[1] if len(x.args) > 1 else None, ast.Constant) and x.args[1].value == "":
+                    limited = len(x.args) > 3 or any(k.arg == "count" for k in x.keywords)
+                    g.append(Ground(f"C18/sanitiser-filters-every-occurrence[{rel}:{ast.unparse(x.args[0])[:30]}]", not limited, "a fourth positional argument of re.sub is `count` (re.ASCII there means count=256): characters beyond it survive", witness=dict(file=rel, line=x.lineno, call=ast.unparse(x)[:120]) if limited else None, native=False))
         # `var` in transpile_structure: every assignment from program text is followed by the filter
         ts = [n for n in mod.body if isinstance(n, ast.FunctionDef) and n.name == "transpile_structure"][0]
         bad = []
@@ -152,11 +159,13 @@ class C18(Prop):
 
         names = self.whitelist()
         alpha = ['"', "'", "\\", "\n", "[", "]", "(", ")", "^", "`", ":", ";", "a", "b", "1", "0", " ", "|", "_", ".", "#", "{", "}"]
-        positions = ["`{}`", "‛{}", "\\{}", "→{}", "←{}", "({}|1)", "@{};", "@{}|1;", "@f:{}|1;", "@f:a:{}|1;", "@f:{}:{}|1;", "λ{}|1;", "«{}«", "»{}»", "⁺{}", "{}"]
+        positions = ["`{}`", "‛{}", "\\{}", "→{}", "←{}", "({}|1)", "@{};", "@{}|1;", "→f @{};", "@f:{}|1;", "@f:a:{}|1;", "@f:{}:{}|1;", "λ{}|1;", "«{}«", "»{}»", "⁺{}", "{}"]
         n = 0
         maxlen = 2 if tier != "thorough" else 3
         payloads = [""] + ["".join(p) for L in range(1, maxlen + 1) for p in itertools.product(alpha, repeat=L)]
         payloads += ['");x=1#', '\\");x=1#', "a[b]", "a^b", "__import__", "\\`", "\\\\`"]
+        # boundary sizes: long runs of characters a sanitiser has to remove before the payload (a filter limited to a count lets the rest through)
+        payloads += [junk * k + "\nPWNED=7\ndict" for junk in ("-", " ", "é") for k in (255, 256, 300, 1000)]
         for pos in positions:
             for p in payloads:
                 prog = pos.replace("{}", p)
